@@ -213,6 +213,11 @@ def rand_value(t, rnd, n=None):
     if tag == "dyn" or tag == "any":
         allowed = t[1] if tag == "dyn" and t[1] else ["Boolean", "U1", "U2", "U4", "U8", "I1", "I2", "I4", "I8", "F4", "F8", "String", "Binary"]
         kind = rnd.choice(allowed)
+        if kind == "Array":
+            # lists cannot be given to a Dynamic as plain values (Array(count=...) lacks its format); seen as an error now and then
+            if rnd.random() < 0.15:
+                return [1, 2]
+            kind = rnd.choice([a for a in allowed if a != "Array"] or ["U1"])
         if kind == "JIS8":
             kind = "String"
         v = scalar_value(kind, t[2] if tag == "dyn" else -1, rnd, n=n)
